@@ -685,7 +685,7 @@ def run(ctx):
 
 
 MANIFEST_ENTRY = {
-    "technique": "static analysis: abstract evaluation (rules/checklocales.py on rules/absint.py) of check_locales_inner with the real StringIndexer under it over every locale order (each locale's table = its own distinct texts, count = its length) and of the indexer on every push sequence of length <= 4; MIR path enumeration of ParsedValue::merge (every successful merge of a renderable value indexes it), MIR single-writer check of literal indices, traversal completeness of index_strings, escaper decision table against the JSON grammar with helper predicates interpreted and astral / invisible representatives, MIR check that the exported file is created / truncated before the document is written; syntactic normal-form rule for every read of SKIP_ICU_CFG (the flag only stands in for an ICU feature); abstract evaluation of the whole export (get_translations -> write_to_dir) over a modelled file system with the written text decoded by a JSON parser; MIR return summary + effects of StringArray::cast; MIR destination type of the client-side decode (owned strings)",
+    "technique": "static analysis: abstract evaluation (rules/checklocales.py on rules/absint.py) of check_locales_inner with the real StringIndexer under it over every locale order (each locale's table = its own distinct texts, count = its length) and of the indexer on every push sequence of length <= 4; MIR path enumeration of ParsedValue::merge (every successful merge of a renderable value indexes it), MIR single-writer check of literal indices, traversal completeness of index_strings, escaper decision table against the JSON grammar with helper predicates interpreted and astral / invisible representatives, MIR check that the exported file is created / truncated before the document is written; syntactic normal-form rule for every read of SKIP_ICU_CFG (the flag only stands in for an ICU feature); abstract evaluation of the whole export (get_translations -> write_to_dir) over a modelled file system with the written text decoded by a JSON parser; MIR return summary + effects of StringArray::cast; MIR destination type of the client-side decode (owned strings); the client endpoint: create_locale_type_inner evaluated in the lazily-loading client configuration - translations-path with {locale} = the configured name and {namespace} = the namespace name, i.e. the file write_to_dir writes (a namespace without text included)",
     "level_text": "Structural: for every locale the index space is shown to be created, filled, stored and measured from one fresh indexer; indices have one writer; the generated code is shown to carry table size and index in types; the exported file is shown to be written through an escaper whose table covers what JSON requires. No table is computed.",
     "level_note": "Trusted: const-generic array typing, JSON grammar. Not decided: StringArray::cast at run time, concrete tables.",
 }
